@@ -12,8 +12,57 @@ import (
 func (c *Ctx) doCall(st *State, fr *Frame, cc *ssa.CallCommon, instr ssa.Instruction, k func(*State, Val)) {
 	fnv := c.get(st, fr, cc.Value)
 	var args []Val
+	type wb struct {
+		addr *Addr
+		id   Term
+		key  string
+		so   Sort
+		pre  string
+	}
+	var wbs []wb
 	for _, a := range cc.Args {
-		args = append(args, c.get(st, fr, a))
+		v := c.get(st, fr, a)
+		// the address of a local variable of non-struct type passed as an argument (`f(&x)`): the callee sees a
+		// first-class pointer whose pointee lives in the per-type pointee heap; the variable's content is copied there
+		// before the call and read back after it
+		if ad, ok := v.(*Addr); ok && ad.Kind == aCell && ad.Elem != nil {
+			if _, isAlloc := ad.Key.(*ssa.Alloc); isAlloc {
+				if _, isStruct := ad.Elem.Underlying().(*types.Struct); !isStruct {
+					if so, ok := sortOf(ad.Elem); ok && so != SNone {
+						if _, isB := cc.Value.(*ssa.Builtin); !isB {
+							id := c.addrIdentity(ad)
+							id.GoT = types.NewPointer(ad.Elem)
+							key := "D_" + shortTypeName(ad.Elem)
+							c.V.heapKeys[key] = heapKeyInfo{Owner: typeKey(ad.Elem), Field: "<pointee>", Sort: so}
+							h := c.heapCur(st, key, arrSort(so))
+							cur := c.valAsTerm(c.loadCell(st, ad))
+							nh := sto(h, id, cur)
+							st.heap[key] = nh
+							c.assumeAlive(st, id)
+							// the variable belongs to this activation: its address did not exist at function entry
+							st.assume(mk(SBool, "(not (select %s %s))", c.aliveCur(fr.entry).S, id.S))
+							wbs = append(wbs, wb{ad, id, key, so, nh.S})
+							v = id
+						}
+					}
+				}
+			}
+		}
+		args = append(args, v)
+	}
+	if len(wbs) > 0 {
+		k0 := k
+		k = func(st2 *State, r Val) {
+			for _, w := range wbs {
+				h := c.heapCur(st2, w.key, arrSort(w.so))
+				if h.S != w.pre {
+					nv := sel(h, w.id, w.so)
+					nv.GoT = w.addr.Elem
+					c.store(st2, fr, w.addr, nv, token.NoPos)
+				}
+			}
+			k0(st2, r)
+		}
 	}
 	c.doCallVals(st, fr, cc, instr, fnv, args, k)
 }
@@ -415,6 +464,9 @@ func (c *Ctx) applyContract(st *State, fr *Frame, fc *FuncContract, tgt callTarg
 	for _, cl := range fc.Clauses {
 		if cl.Kind != "ensures" {
 			continue
+		}
+		if cl.Assumed {
+			c.V.assumptions["assumed postcondition of "+tgt.key+" (used by callers, not proved against the body): "+cl.Src] = true
 		}
 		env2.assumeMode = true
 		st.assume(env2.evalBool(cl.E))
